@@ -2,10 +2,10 @@
 From Coq Require Extraction ExtrOcamlBasic.
 From Coq Require Import ZArith.
 From Verif Require Import InstNames.NameModel X86Validate.ValidateModel.
-From VerifGen Require Import X86Names A64Names X86Sigs X86DbRows.
+From VerifGen Require Import X86Names A64Names X86Sigs X86DbRows X86DbDecor.
 Extraction Blacklist List String Int.
 Extraction "instnames.ml" NameModel.name_of NameModel.formatted_name_of NameModel.alias_name_of NameModel.x86_string_to_inst_id
   NameModel.a64_string_to_inst_id NameModel.a64_string_to_inst_id_single_range
   X86Names.x86_names X86Names.x86_aliases A64Names.a64_names
-  ValidateModel.validate X86Sigs.x86_vtables ValidateModel.rep_ops X86DbRows.x86_db_rows
+  ValidateModel.validate X86Sigs.x86_vtables ValidateModel.rep_ops X86DbRows.x86_db_rows X86DbDecor.x86_db_rows_decorated
   BinInt.Z.of_N.
